@@ -188,7 +188,11 @@ func (p *c03Party) remTip() uint64 {
 
 // pending / window: the state predicates of SignNextCommitment's contract.
 func (p *c03Party) pending() bool {
-	return p.localLogIdx != p.tipLocalIdx || p.lastLocalRemoteIdx() != p.tipRemoteIdx
+	last := p.tailRemoteIdx
+	if p.live {
+		last = p.liveRemoteIdx
+	}
+	return p.localLogIdx != p.tipLocalIdx || last != p.tipRemoteIdx
 }
 
 // lastLocalRemoteIdx: the peer's updates covered by the latest commitment the
